@@ -1,0 +1,44 @@
+//go:build verif
+
+// Machine-checked contracts for package l4openvpn (comment-only; read by /verif/gvc).
+// The round-trip lemmas themselves are Go functions in zz_lemmas_verif.go. Lemmas tagged `pending`
+// (MessageAuth, MessageCrypt, MessageCrypt2 parse-then-serialise) are stated but not claimed: with a
+// symbolic HMAC length the chain of appends does not discharge within the time limit.
+
+package l4openvpn
+
+// What package initialisation establishes about the default digest and cipher (assumed here, see
+// crypto.go: AuthDigestFindByName("SHA-256"), CryptCipherFindByName("AES-256-CTR")).
+//@ pred defaults() = AuthDigestDefault != nil && AuthDigestDefault.Size == 32 && CryptCipherDefault != nil
+
+//@ func lemmaHeaderParseSerialize(src []byte) bool
+//@ ensures[C18] result
+
+//@ func lemmaPlainParseSerialize(src []byte) bool
+//@ ensures[C18] result
+
+//@ func lemmaAuthParseSerialize(src []byte) bool
+//@ requires[inv] defaults()
+//@ ensures[pending] result
+
+//@ func lemmaCryptParseSerialize(src []byte) bool
+//@ requires[inv] defaults()
+//@ ensures[pending] result
+
+//@ func lemmaWrappedKeyParseSerialize(src []byte) bool
+//@ requires[inv] defaults()
+//@ ensures[C18] result
+
+//@ func lemmaCrypt2ParseSerialize(src []byte) bool
+//@ requires[inv] defaults()
+//@ ensures[pending] result
+
+//@ func lemmaHeaderSerializeParse(opcode uint8, keyID uint8) bool
+//@ ensures[C18] result
+
+//@ func lemmaPlainSerializeParse(keyID uint8, session uint64, count uint8, packet uint32) bool
+//@ ensures[C18] result
+
+//@ func lemmaCryptSerializeParse(keyID uint8, session uint64, replayID uint32, replayTS uint32, hmac []byte, encrypted []byte) bool
+//@ requires[inv] defaults()
+//@ ensures[C18] result
